@@ -2,7 +2,7 @@
 command-line values are usage errors."""
 import os, random, subprocess, time
 
-import enc, procs, session
+import c16, enc, procs, session
 from session import Inconclusive
 
 SIZES = [(1, 1), (1, 80), (24, 1), (2, 2), (3, 5), (10, 20), (24, 80), (50, 150), (100, 300), (4, 49), (5, 60)]
@@ -130,13 +130,15 @@ def run_session(col, binpath, rng, tag, scratch, n_events):
         opts += ["--gpsd", "--gpsd-ip", "127.0.0.1"]  # nothing listens on the gpsd port: the helper thread must fail quietly
     rows, cols = rng.choice(SIZES[5:])
     lines = aircraft_lines(rng, n_air, lat, lon)
-    plan = [("send", b"".join(lines))] if lines else []
+    # "any traffic": the feed also carries lines that are not frames (C16's malformed kinds)
+    junk = [l for v in c16.MALFORMED.values() if v for l in v if len(l) < 200]
+    plan = [("send", b"".join(lines) + b"".join(rng.sample(junk, 6)))] if lines else [("send", b"".join(rng.sample(junk, 4)))]
     if traffic == "running" and lines:
         # aircraft 0 keeps moving (its superseded positions become the track drawn on the map)
         la0, lo0 = enc.destination(lat, lon, 45.0, 20.0)
         for k in range(120):
             plan.append(("sleep", 0.1))
-            plan.append(("send", rng.choice(lines)))
+            plan.append(("send", rng.choice(lines) if k % 6 else rng.choice(junk)))
             la0, lo0 = enc.destination(la0, lo0, 90.0, 0.8)
             plan.append(("send", enc.line(enc.long_frame(17, 5, 0x4A0000, enc.me_airpos(11, 30000, la0, lo0, k % 2 == 1)))))
     plan.append(("sleep", 120))
